@@ -80,7 +80,28 @@ func eval(t vk.TB, c splitk.Case, constructed bool) {
 }
 
 func batchContent(c splitk.Case) *vk.Violation {
-	v := splitk.Content(c, splitk.RunBatch(c))
+	r := splitk.RunBatch(c)
+	// The batch builder treats a candidate that would need more than 255 parts as unusable and then falls
+	// back to UCS-2 (C09's contract): for such a text UCS-2 is a correct answer although the requested
+	// coding can represent it. The content clause is then judged under UCS-2.
+	if r.Err == nil && r.Actual == 8 && c.Coding != 8 {
+		if k, ok := splitk.KindOf(c.Proto, c.Coding); ok {
+			if _, starts, err := ref.Units(k, c.TextString()); err == nil {
+				single, per := k.Limits()
+				if starts[len(starts)-1] > single && ref.GreedyCount(starts, per) > 255 {
+					c2 := c
+					c2.Coding = 8
+					v := splitk.Content(c2, r)
+					if v != nil {
+						v.Key = "batch:" + v.Key
+						v.Case = c
+					}
+					return v
+				}
+			}
+		}
+	}
+	v := splitk.Content(c, r)
 	if v != nil {
 		v.Key = "batch:" + v.Key
 	}
